@@ -443,12 +443,13 @@ Qed.
 
 (* a message only the other role may send ends the connection, in every state *)
 Lemma role_foreign_fatal fixed fixk c seq t cls :
+  ignore_first c = false ->
   (srv c = false /\ (t = 5 \/ t = 30 \/ t = 50)) \/
   (srv c = true /\ (t = 6 \/ t = 31 \/ t = 51 \/ t = 52 \/ t = 53)) ->
   closed (dispatch_g fixed fixk c seq t cls) = true.
 Proof.
-  intros [[Hs Ht]|[Hs Ht]]; repeat (destruct Ht as [Ht|Ht]); subst t;
-    unfold_model; cbv zeta; rewrite ?Hs; cbn; crush_ifs; autorewrite with frame; cbn; rewrite ?Hs in *; cbn in *;
+  intros Hi [[Hs Ht]|[Hs Ht]]; repeat (destruct Ht as [Ht|Ht]); subst t;
+    unfold_model; cbv zeta; rewrite ?Hs, ?Hi; cbn; crush_ifs; autorewrite with frame; cbn; rewrite ?Hs in *; cbn in *;
     try reflexivity; try discriminate.
 Qed.
 
@@ -664,3 +665,25 @@ Lemma between_methods_success fixk :
   closed (cn s) = false /\ auth (cn s) = 2 /\ waiting (cn s) = true /\ req_issued (cn s) = false /\
   closed (cn (run_g true fixk s [EvRecv 52 0; EvSettle])) = true.
 Proof. destruct fixk; vm_compute; repeat split; reflexivity. Qed.
+
+(* ---- first_kex_packet_follows ------------------------------------------------------------------------------- *)
+(* the packet following a wrongly guessed KEXINIT is ignored - not parsed, nothing sent, connection up - exactly
+   once, whatever strict says, in EVERY state; with no guess pending the packet goes to the exchange handler *)
+Lemma guessed_packet_ignored_once fixed fixk c seq t cls :
+  kex c = true -> 30 <= t <= 49 ->
+  (ignore_first c = true ->
+     dispatch_g fixed fixk c seq t cls = set_ignore_first false c) /\
+  (ignore_first c = false ->
+     dispatch_g fixed fixk c seq t cls = on_kexmsg c seq t cls).
+Proof.
+  intros Hk Ht. unfold dispatch_g.
+  assert (E : (30 <=? t) && (t <=? 49) = true) by (apply andb_true_iff; split; apply Z.leb_le; lia).
+  rewrite E, Hk. split; intros H; rewrite H; reflexivity.
+Qed.
+
+(* a KEXINIT arms the flag exactly for a wrong guess, and a KEXINIT without one disarms it *)
+Lemma kexinit_arms_guess fixk c seq cls :
+  closed (on_kexinit_g fixk c seq cls) = false -> ignore_first (on_kexinit_g fixk c seq cls) = (2 <=? cls).
+Proof.
+  unfold on_kexinit_g, fatal, send_kexinit, emit. cbv zeta. crush_ifs; cbn; intros H; try discriminate H; reflexivity.
+Qed.
